@@ -141,10 +141,12 @@ class Mutator:
                     if self.have_blobs:
                         self.state.set_current("blobs", blobs)
 
-                # Correct logZ for fraction of prior with finite likelihood support
+                # logZ of this prior batch is the fraction of the prior with finite
+                # likelihood support.  It is not an increment: the current value already
+                # is the beta=0 estimate re-computed from the previous batches.
                 n_finite = len(finite_idx)
                 n_total = len(logl)
-                logz = self.state.get_current("logz") + np.log(n_finite / n_total)
+                logz = np.log(n_finite / n_total)
                 self.state.set_current("logz", logz)
             return
 
